@@ -82,3 +82,40 @@ Proof.
   rewrite (c02_accepted_exact ace ip6 psl c ic i lines dbg Hacc WF PT).
   rewrite (c02_accepted_exact ace ip6 psl c ic i lines' dbg Hacc WF PT'). reflexivity.
 Qed.
+
+(* ---- C01 through the public API: an actual (non-OPTIONS) request carrying an Origin that parses to o
+   is granted Access-Control-Allow-Origin iff the configuration lists "*" or some listed pattern denotes o ---- *)
+Require Import Proofs.ServeP Proofs.ParseP.
+
+Lemma c01_middleware : forall ace ip6 psl c ic dbg r pre v o,
+  new_internal_config ace ip6 psl c = inl ic -> c_pna_nocors c = false -> cors_free pre ->
+  beqb (r_method r) method_options = false ->
+  first (r_hdrs r) headers_Origin = Some v -> parse v = Some o ->
+  (hget (o_hdrs (serve (Some ic) dbg r pre)) headers_ACAO <> None <->
+   (lists_star (c_origins c) = true \/ allowed_by (cfg_patterns ace ip6 c) o = true)).
+Proof.
+  intros ace ip6 psl c ic dbg r pre v o Hacc Hnc Hfree Hm Hf Hp.
+  pose proof (accepted_rel _ _ _ _ _ Hacc) as R.
+  assert (Hpre : hget pre headers_ACAO = None) by (apply Hfree; reflexivity).
+  assert (Hout : o_hdrs (serve (Some ic) dbg r pre) = handle_actual ic pre v false).
+  { unfold serve. rewrite Hm, Hf. destruct (first (r_hdrs r) headers_ACRM); reflexivity. }
+  rewrite Hout. unfold handle_actual.
+  rewrite (rel_pna_nocors _ _ _ _ R), Hnc, (rel_tree_empty _ _ _ _ R), (rel_cred _ _ _ _ R).
+  cbn [negb].
+  destruct (lists_star (c_origins c)) eqn:Hs.
+  - (* allow-all: not credentialed *)
+    destruct (rel_star _ _ _ _ R Hs) as [Hc _]. rewrite Hc. cbn [negb andb].
+    split; [intros _; left; reflexivity|]. intros _.
+    destruct (i_aceh ic); [|rewrite hget_hset_neq by reflexivity]; rewrite hget_hset_eq; discriminate.
+  - cbn [negb andb]. rewrite andb_false_r. rewrite Hp.
+    assert (Hc : tree_contains (i_tree ic) o = allowed_by (cfg_patterns ace ip6 c) o).
+    { rewrite (rel_tree _ _ _ _ R), Hs. apply tree_contains_build; [apply accepted_patterns_valid|].
+      eapply parse_valid_origin; exact Hp. }
+    rewrite Hc. destruct (allowed_by (cfg_patterns ace ip6 c) o) eqn:Ha; cbn [negb].
+    + split; [intros _; right; reflexivity|]. intros _.
+      destruct (i_aceh ic); [|rewrite hget_hset_neq by reflexivity];
+        (destruct (c_credentialed c); [rewrite hget_hset_neq by reflexivity|]); rewrite hget_hset_eq; discriminate.
+    + split.
+      * intros H. exfalso. apply H. rewrite hget_hadd_neq by reflexivity. exact Hpre.
+      * intros [H|H]; discriminate.
+Qed.
